@@ -198,12 +198,13 @@ class ConeProblem(object):
 
 
 def _symmetric(v, dims):
-    """the returned s, z must have symmetric 's' blocks (both triangles equal)"""
+    """the returned s, z must have symmetric 's' blocks (both triangles equal, up to 1e-9 of the magnitude)"""
     k = dims['l'] + sum(dims['q'])
+    tol = Fr(1, 10 ** 9) * (1 + maxabs(v))
     for m in dims['s']:
         for j in range(m):
             for i in range(j + 1, m):
-                if v[k + j * m + i] != v[k + i * m + j]:
+                if abs(v[k + j * m + i] - v[k + i * m + j]) > tol:
                     return False
         k += m * m
     return True
